@@ -175,11 +175,11 @@ fn scenarios() -> Vec<Scenario> {
     let c1 = Op::All(b"p\x08q\x07r\n");
     let c2 = Op::All(b"s\x7ft\x00u\n");
     // buffers beyond 64 KiB (a stream that hands its inner writer bounded pieces must hold the lock across all of them)
+    // (two long printable runs around one escape: code that fails to hold the lock then still has only a handful of
+    // lock acquisitions per call, which keeps the schedule space finite for the explorer)
     let big = |tag: u8, n: usize| -> Op {
-        let unit = [&[tag][..], b"23456\x1b[1m789\x1b[0m\n"].concat();
-        // whole units only: every operation must leave the stream in the ground state (the expected output of an
-        // operation is computed on its own)
-        Op::All(Box::leak(unit.repeat(n / unit.len() + 1).into_boxed_slice()))
+        let half = vec![tag; n / 2];
+        Op::All(Box::leak([&half[..], b"\x1b[1m", &half[..], b"\x1b[0m\n"].concat().into_boxed_slice()))
     };
     let (b1, b2, b3) = (big(b'A', 70_000), big(b'B', 65_537), big(b'C', 140_000));
     let mut v = vec![];
